@@ -45,15 +45,21 @@ class Stream(object):
             result = self.text[self.position:]
             self.position = len(self.text)
             return result
+        # snapshot of the reader: every frame between this read() and the harness (whatever the functions are called),
+        # with all their locals except the harness stream, location objects (message-only counters) and loop temporaries
         frame = sys._getframe(1)
         chain = []
-        while frame is not None and frame.f_code.co_name != "fixed_rows":
-            chain.append((frame.f_code.co_name, frame.f_lineno, snapshot.snap({k: v for k, v in frame.f_locals.items() if k not in IGNORED_LOCALS})))
+        while frame is not None and frame.f_code.co_filename != __file__:
+            local_state = {}
+            for name, value in frame.f_locals.items():
+                if name in IGNORED_LOCALS or value is self or type(value).__name__ == "Location":
+                    continue
+                local_state[name] = value
+            chain.append((frame.f_code.co_name, frame.f_lineno, snapshot.snap(local_state)))
             frame = frame.f_back
         if frame is None:
-            raise RuntimeError("read() not called from fixed_rows")
-        local_state = {k: v for k, v in frame.f_locals.items() if k not in IGNORED_LOCALS}
-        self.snapshot = (tuple(chain), frame.f_lineno, snapshot.snap(local_state), self.text[self.position:], size)
+            raise RuntimeError("read() not called from the harness")
+        self.snapshot = (tuple(chain), self.text[self.position:], size)
         raise NeedMoreInput()
 
 
